@@ -660,35 +660,77 @@ def _same_conditions(got, want):
 # castling and king steps
 
 def g5(ctx, F, D):
-    fn = F.fn(KINGF)
+    """Castling generation decided as a truth table (S-eval): the condition under which each castling move is pushed is folded for
+    assignments of the atoms `right held`, `square (row, c) empty`, `square (row, c) attacked`: true for the reference assignment,
+    false when any one required atom is flipped, unchanged when an irrelevant one is.  The written form - four spelled-out blocks,
+    closures, a table of sides walked by a loop with `Iterator::all` - is free."""
+    from . import inline
+    from .common import chess_evalcalls
+    fn0 = F.fn(KINGF)
+    fn = dict(fn0, hir=inline.unroll_literal_loops(fn0["hir"], F=F))
     ps, sym = pushes_of(fn, F)
     spec = {"CastlingShort": ("king", [5, 6], [4, 5, 6]), "CastlingLong": ("queen", [1, 2, 3], [4, 2, 3])}
+    SOME, NONE = "std::prelude::v1::Some", ("variant", "std::prelude::v1::None")
+    GAME = ("var", "game")
+    ev = chess_evalcalls(None, {})
     n = 0
     for owner, row in (("White", 0), ("Black", 7)):
+        OWN = ("variant", PL + owner)
+        blocker = ("ctor", SOME, (("struct", "chess::piece::Piece", (("owner", OWN), ("piece_type", ("variant", "chess::piece::PieceType::Knight")))),))
+
+        def assignment(rights, occupied, attacked):
+            a = {("field", GAME, "current_player"): OWN, ("field", ("var", "self"), "owner"): OWN}
+            st = ("call", "chess::Game::state", (GAME,))
+            for o2 in ("white", "black"):
+                for sd in ("king", "queen"):
+                    a[("call", "chess::gamestate::GameState::%s_%s_castling" % (o2, sd), (st,))] = ("lit", (o2, sd) in rights)
+            for c in range(8):
+                sq_ = ("pos", row, c)
+                a[("call", "chess::Game::get_position", (GAME, sq_))] = blocker if c in occupied else NONE
+                a[("call", "chess::Game::is_targeted", (GAME, sq_, OWN))] = ("lit", c in attacked)
+            # the king's own square, however it is named (the literal home square, the king piece's square, the cached king square)
+            for ksq in (("var", "pos"), ("call", "chess::Game::get_king_position", (GAME, OWN))):
+                a[("call", "chess::Game::is_targeted", (GAME, ksq, OWN))] = ("lit", 4 in attacked)
+            return a
         for variant, (side, empties, safe) in spec.items():
-            site = [p for p in ps if fold_owner(p[1], owner, D) == ("struct", MV + variant, (("owner", ("variant", PL + owner)),))]
-            ok = len(site) == 1
-            found = None
-            if ok:
-                at = atoms(site[0][2], owner, D)
-                want = {"GameState::%s_%s_castling(Game::state(game))" % (owner.lower(), side)}
-                for c in empties:
-                    want.add("<T>::is_none(Game::get_position(game, Position::new_assert(%d, %d)))" % (row, c))
-                for c in safe:
-                    if c == 4:
-                        want.add("NOT <T>::get_or_init(<T>::new(), || Game::is_targeted(game, Position::new_assert(%d, 4), Player::%s))" % (row, owner))
-                    else:
-                        want.add("NOT Game::is_targeted(game, Position::new_assert(%d, %d), Player::%s)" % (row, c, owner))
-                alt = {w.replace("NOT <T>::get_or_init(<T>::new(), || Game::is_targeted(game, Position::new_assert(%d, 4), Player::%s))" % (row, owner),
-                                 "NOT Game::is_targeted(game, Position::new_assert(%d, 4), Player::%s)" % (row, owner)) for w in want}
-                ok = set(at) in (want, alt)
-                found = sorted(at)
-                exp = sorted(want)
+            site = [p for p in ps if fold_owner(p[1], owner, D) == ("struct", MV + variant, (("owner", OWN),))]
+            reach = ("lit", False)
+            for p in site:
+                reach = ("bin", "||", reach, hir.guards_term(plain_guards(p[2])))
+            both = {(owner.lower(), "king"), (owner.lower(), "queen")}
+            bad = []
+
+            def value(rights, occupied, attacked):
+                v = hir.fold(reach, assignment(rights, occupied, attacked), D, _HELPERS[0], ev)
+                return v[1] if v[0] == "lit" else fmtn(v, 100)
+            if value(both, {0, 4, 7}, set()) is not True:
+                bad.append(("all conditions met", value(both, {0, 4, 7}, set())))
+            if value(both - {(owner.lower(), side)}, {0, 4, 7}, set()) is not False:
+                bad.append(("without the right", value(both - {(owner.lower(), side)}, {0, 4, 7}, set())))
+            for c in empties:
+                if value(both, {0, 4, 7, c}, set()) is not False:
+                    bad.append(("piece on column %d" % c, value(both, {0, 4, 7, c}, set())))
+            for c in safe:
+                if value(both, {0, 4, 7}, {c}) is not False:
+                    bad.append(("column %d attacked" % c, value(both, {0, 4, 7}, {c})))
+            # what must not matter: the other wing's right, squares of the other wing, an attack on a square the king does not touch
+            other_side = "queen" if side == "king" else "king"
+            other_cols = [c for c in (1, 2, 3, 5, 6) if c not in empties]
+            if value({(owner.lower(), side)}, {0, 4, 7}, set()) is not True:
+                bad.append(("other wing's right lost", value({(owner.lower(), side)}, {0, 4, 7}, set())))
+            for c in other_cols:
+                if value(both, {0, 4, 7, c}, set()) is not True:
+                    bad.append(("piece on column %d of the other wing" % c, value(both, {0, 4, 7, c}, set())))
+            for c in [c for c in (0, 1, 2, 3, 5, 6, 7) if c not in safe]:
+                if value(both, {0, 4, 7}, {c}) is not True:
+                    bad.append(("column %d attacked (the king does not touch it)" % c, value(both, {0, 4, 7}, {c})))
             n += 1
-            ctx.check("C01.G5", "castling:%s/%s" % (variant, owner), ok, fn=KINGF, file=fn["file"], line=hir.line(site[0][0]) if site else fn["span"][0],
+            ctx.check("C01.G5", "castling:%s/%s" % (variant, owner), bool(site) and not bad, fn=KINGF, file=fn0["file"],
+                      line=hir.line(site[0][0]) if site else fn0["span"][0],
                       what="%s may castle %s-side only with that right, the squares between king and rook empty and the king's square, "
                            "the square it crosses and its destination not attacked (the b-file square need not be safe)" % (owner, side),
-                      expected=exp if site else "one construction site", found=found)
+                      expected="pushed iff right && columns %s empty && columns %s not attacked" % (empties, safe),
+                      found=bad[:4] if site else "no construction site")
     ctx.floor("C01.G5", "castling cases", n, 4)
 
 
